@@ -52,6 +52,7 @@ def run(chk):
     instance(chk, "deep", 5 if thorough else 4, ["Sneg", "S201", "S404", "W0", "W1", "Wshort", "F", "E404"] if thorough
              else ["S0", "S201", "S404", "W1", "Werr", "F", "E404"])
     redispatch(chk, WR)
+    c04.library(chk, WR, maxn=3 if thorough else 2, extra=("N", "W"))
     chk.exhaustive = True
     c04.recorded(chk, 2000 if thorough else 300, WR)
     r = core.run_tlc("MC_Writer", cfg_text=wcfg(3, ["S201", "W1", "F"], emit=False, D_FlushNoCommit=True), timeout=300)
